@@ -9,16 +9,17 @@ ASSUME = [
     "decomposition: (a) writer: for ANY abstract writer state with a 4-aligned cursor and ANY in-range values, an independent decoder of the produced section (walks header and packets by the format rules) "
     "finds per attribute exactly the SPEC-bits stream (value - min, w bits, LSB first, contiguous; floats LE) and the descriptor (records, file offset); (b) reader: for ANY packet bytes a data packet is "
     "decoded into exactly the SPEC-bits values; (c) C12 decides the bit codec for every width x phase x cut; (d) C11/C06 place sections anywhere relative to page boundaries",
-    "prototype shapes are concrete (3 shapes incl. width 0, 1, 11, 33, 64, single, double, scaled), values symbolic; 1 point per run in quick, 0/2/3 points in thorough; reader: streams <= 9 bytes",
+    "prototype shapes are concrete (5 shapes incl. width 0, 1, 11, 33, 64, single, double, scaled), values symbolic; 1 point per run in quick, 0/2/3 points in thorough; reader: streams <= 9 bytes",
     "composition of (a) and (b) into the end-to-end round trip, and the transport of the prototype through XML, are reasoning steps / outside this technique",
-    "known finding: a prototype whose records ALL have min = max produces no data packet and cannot be read back (see known_findings.txt)",
+    "a prototype whose records ALL have min = max stores no bits: the writer side is one of the prototype shapes, the reader side is the raw iterator's first next() "
+    "on such a section with ANY bytes behind the section header (fixed defect, see known_findings.txt)",
 ]
 
 
 def run(ctx):
-    from mirsym import spec_packet, spec_pcw
+    from mirsym import spec_iter, spec_packet, spec_pcw
     tier = ctx["tier"]
-    scen = spec_pcw.scenarios(tier) + [s for s in spec_packet.scenarios(tier) if "data packet" in s.name]
+    scen = spec_pcw.scenarios(tier) + [s for s in spec_packet.scenarios(tier) if "data packet" in s.name] + spec_iter.const_scenarios(tier)[:1]
     obls, samples = mlane.run_scenarios("C01", "O01", scen, ctx, "concrete prototype shapes, symbolic values; any writer state <= 8 pages; reader streams <= 9 B")
     obls += kp.run_k("C01", "c01", kp.F_C12, [s for s in kp.c12_core_specs(tier)], ctx, inst_text=kp.c12_core_inst(tier))
     return dict(obligations=obls, functions=FUNCTIONS, assumptions=ASSUME, samples=samples,
